@@ -182,7 +182,7 @@ func zz8Setup(typ handshake.Type, n int, sameEpoch bool) (*postHandshake, *dtlss
 // is cut short); and a message that was not consumed does not leave the state machine running as if nothing
 // happened: either the receive sequence advanced or an error is returned to fsm13.Run (no_silent_wedge).
 //
-//symgo:entry covers=ph_keyupdate_ok,ph_ticket_ok,ph_decode_error,ph_returned_error,ph_alert_sent nonterm=violation steps=3000000
+//symgo:entry covers=ph_keyupdate_ok,ph_decode_error,ph_returned_error,ph_alert_sent nonterm=violation steps=3000000
 func zzPostHandshakeRxMessage() {
 	typ := zz8Types[zzsymChoice("type", len(zz8Types))]
 	n := zzsymChoice("bodylen", zzsymParam("NPHBODY")+1)
@@ -252,12 +252,13 @@ func zzPostHandshakeRxTerminates() {
 }
 
 // The same event through the real fsm13.finish step (StateFinished): the connection's RecvHandshake channel holds
-// one event announcing a handshake record, the cache holds the message (Finished with 0..1 body bytes, or a
-// KeyUpdate / NewSessionTicket with a 1-byte body), no command and no timer is pending. Obligations as above: no
+// one event announcing a handshake record, the cache holds the message (Finished with 0..1 body bytes, a
+// KeyUpdate with a 1-byte body, or a NewSessionTicket with an arbitrary 14-byte body - the shortest that can
+// decode, any lifetime), no command and no timer is pending. Obligations as above: no
 // panic, finish returns, at most one alert for the datagram, and an unconsumed message makes finish report an
 // error instead of staying in StateFinished with the message still at the head of the cache.
 //
-//symgo:entry covers=ph_finish_returned nonterm=violation steps=3000000 allow_blocked=1
+//symgo:entry covers=ph_finish_returned,ph_finish_ticket_ok nonterm=violation steps=3000000 allow_blocked=1
 func zzPostHandshakeRxViaFinish() {
 	var typ handshake.Type
 	n := 1
@@ -269,7 +270,7 @@ func zzPostHandshakeRxViaFinish() {
 	case 2:
 		typ = handshake.TypeKeyUpdate
 	default:
-		typ = handshake.TypeNewSessionTicket
+		typ, n = handshake.TypeNewSessionTicket, 14 // shortest body that can decode (1-byte ticket, no extensions)
 	}
 	p, st, conn := zz8Setup(typ, n, zzsymChoice("same_epoch", 2) == 1)
 	conn.alertLimit = 1
@@ -286,6 +287,9 @@ func zzPostHandshakeRxViaFinish() {
 	zzsymAssert(err != nil || st.HandshakeRecvSequence > seq0, "no_silent_wedge")
 	if err == nil {
 		zzsymAssert(next == StateFinished, "stays_finished_on_success")
+		if typ == handshake.TypeNewSessionTicket {
+			zzsymCover("ph_finish_ticket_ok")
+		}
 	}
 	zzsymCover("ph_finish_returned")
 }
